@@ -9,8 +9,8 @@ import gen_graphs as gg
 
 FIELDS = {
     "C01": ["paths", "subset", "once", "complete", "no_panic"],
-    "C02": ["verdicts", "asserts", "no_panic"],
-    "C03": ["witness", "no_panic"],
+    "C02": ["verdicts", "asserts", "report", "no_panic"],
+    "C03": ["witness", "report", "no_panic"],
     "C11": ["ev_sound", "ev_exact", "no_panic"],
     "C13": ["bfs_order", "shortest", "no_panic"],
 }
@@ -202,7 +202,12 @@ def c02(res):
     res.rule = ("graphs labelled by 1-5 always/sometimes properties (with and without a never-discovered sentinel, so both "
                 "'frontier exhausted' and 'all properties discovered' endings occur) x {bfs, dfs, on-demand} x threads; "
                 "verdicts judged against Violated/Witnessed over Reach(g); assert_properties() outcome judged too")
-    run_family(res, "C02", FIELDS["C02"], graphs, lambda i, g: std_cfgs(threads))
+    def cfgs(i, g):
+        c = std_cfgs(threads)
+        for x in c:
+            x["report"] = True      # the textual report of the finished run carries the same counts and verdicts
+        return c
+    run_family(res, "C02", FIELDS["C02"], graphs, cfgs)
     # graphs larger than a block: verdicts decided by states deep in the graph (formula properties)
     import fam_market
     wd = workdir("C02big-%s" % res.tier)
@@ -270,9 +275,10 @@ def c03(res):
                 "graphs with 1-5 mixed properties; every path returned by discoveries() judged by Graph!ValidWitness "
                 "(+ its action list re-executed on the table)")
     def cfgs(i, g):
-        if i < nplain:
-            return all_strategy_cfgs(rng, i, g, threads)
-        return sym_cfgs(rng, g)
+        c = all_strategy_cfgs(rng, i, g, threads) if i < nplain else sym_cfgs(rng, g)
+        for x in c:
+            x["report"] = True      # also take Checker::report / discovery_classification of the finished run
+        return c
     run_family(res, "C03", FIELDS["C03"], graphs, cfgs)
     sim_design(res, rng, q)
 
